@@ -153,6 +153,7 @@ def check_node_line(files, line, mnemonics):
             return (f"node {kind}: range starts at raw {loc['sr']} but its mnemonic token starts at raw {tl['sr']} "
                     f"(range designates {got!r})")
     # operand tokens
+    last_end = -1
     for key, val in NODE_FIELDS.findall(line):
         if "/" in val:
             v, l = val.split("/", 1)
@@ -182,4 +183,14 @@ def check_node_line(files, line, mnemonics):
             nm = unhx(v)
             if sl != nm and sl.rstrip(":") != nm and nm != "__return__" and sl.lower() not in mnemonics:
                 return f"node {kind}: label {nm!r} located on {sl!r}"
+        if oloc["file"] == loc["file"]:
+            last_end = max(last_end, oloc["er"])
+    # an instruction ends with its last operand (and the parenthesis that closes a memory operand):
+    # no comment, newline or token of the next statement belongs to it
+    if not multi and kind != "Label" and last_end >= 0 and loc["er"] > last_end:
+        tail = src_v[last_end + 1:loc["er"] + 1] if last_end >= loc["sr"] else ""       # ends are inclusive
+        # (a load / store written with a label expands into two nodes that share the statement's text:
+        # the label token is an operand of the first one only)
+        if tail.strip(" \t)") != "" and not re.fullmatch(r"[ \t,]*[A-Za-z_.$][\w.$]*[ \t,]*(\w+)?[ \t)]*", tail):
+            return (f"node {kind}: range designates {got!r}, which runs {tail!r} past its last operand")
     return None
